@@ -23,7 +23,13 @@ func IsWorker() bool { return os.Getenv("VERIF_WORKER") != "" }
 // Serve is the worker loop: one JSON job per stdin line, one JSON result per stdout line.
 func Serve(handle func(job json.RawMessage) interface{}) {
 	in := bufio.NewReaderSize(os.Stdin, 1<<20)
-	out := bufio.NewWriter(os.Stdout)
+	// the result pipe is the process's stdout: code under test that prints (there is a stray fmt.Println in
+	// the weighted least-active balancer) must not corrupt it, so os.Stdout is pointed at /dev/null.
+	proto := os.Stdout
+	if null, err := os.OpenFile(os.DevNull, os.O_WRONLY, 0); err == nil {
+		os.Stdout = null
+	}
+	out := bufio.NewWriter(proto)
 	for {
 		line, err := in.ReadBytes('\n')
 		if len(line) > 0 {
